@@ -70,3 +70,9 @@ package v2
 // (ghost bookkeeping of the backend calls: one key per call, see backend.contracts)
 //@   assumes len(calls) == len(callIKs)
 //@   property C18
+
+// C07 C18: the members of a bulk element as the API documents them (openapi: action, ik, data): the idempotency key a client
+// sends under "ik" must reach the engine, not be dropped by a renamed tag
+//@ jsonname v2.Element.IdempotencyKey "ik" // C07 C18
+//@ jsonname v2.Element.Action "action" // C07 C18
+//@ jsonname v2.Element.Data "data" // C07 C18
